@@ -78,6 +78,24 @@ class Escape(object):
                 return res
         return res
 
+    def of_stmt(self, func, ctx, stmt):
+        """Exceptions that may escape one statement (or expression) of func; handlers that lexically
+        enclose the statement are NOT applied (the caller's CFG has the exceptional edges)."""
+        self._done = getattr(self, '_done', set())
+        env = {'func': func, 'ctx': ctx, 'depth': 0, 'caught': None, 'caught_name': None}
+        if isinstance(stmt, ast.stmt):
+            if isinstance(stmt, (ast.If, ast.While)):
+                return self._expr(stmt.test, env)
+            if isinstance(stmt, ast.For):
+                return self._expr(stmt.iter, env)
+            if isinstance(stmt, ast.With):
+                out = {}
+                for it in stmt.items:
+                    self._merge(out, self._expr(it.context_expr, env))
+                return out
+            return self._stmt(stmt, env)
+        return self._expr(stmt, env)
+
     def _esc(self, func, ctx, depth):
         k = (func.qname, ctx.key() if ctx else None)
         if k in self._done:
@@ -94,7 +112,7 @@ class Escape(object):
                 for node, exc, text in self.implicit(func, ctx):
                     if not self._handled_lexically(func, node, exc):
                         it = Item(exc, 'implicit', [self._frame(func, node, text)], func.qname, text)
-                        res.setdefault(exc, it)
+                        res.setdefault(it.ident(), it)
         finally:
             self.inprogress.discard(k)
         old = self.memo.get(k, {})
@@ -191,7 +209,7 @@ class Escape(object):
             caught = [dict() for _ in st.handlers]
             for e, it in body.items():
                 for i, h in enumerate(st.handlers):
-                    if self._handler_matches(func, h, e):
+                    if self._handler_matches(func, h, it.exc):
                         caught[i][e] = it
                         break
                 else:
@@ -211,8 +229,8 @@ class Escape(object):
             out = self._expr(st.test, env)
             if self.asserts:
                 text = head(st)
-                out.setdefault('AssertionError', Item('AssertionError', 'assert',
-                                                      [self._frame(func, st, text)], func.qname, text))
+                it = Item('AssertionError', 'assert', [self._frame(func, st, text)], func.qname, text)
+                out.setdefault(it.ident(), it)
             return out
         # simple statements: every expression inside
         out = {}
@@ -248,7 +266,8 @@ class Escape(object):
         text = head(st)
         if r is not None and r[0] == 'class':
             k = r[1].qname
-            out.setdefault(k, Item(k, 'explicit', [self._frame(func, st, text)], func.qname, text))
+            it0 = Item(k, 'explicit', [self._frame(func, st, text)], func.qname, text)
+            out.setdefault(it0.ident(), it0)
             # constructor may raise too
             if isinstance(exc, ast.Call):
                 init = self.p.lookup(r[1], '__init__')
@@ -258,22 +277,26 @@ class Escape(object):
                         out.setdefault(e, it.via(self._frame(func, st, text)))
         elif r is not None and r[0] == 'ext':
             k = self.p.exc_key(r)
-            out.setdefault(k, Item(k, 'explicit', [self._frame(func, st, text)], func.qname, text))
+            it0 = Item(k, 'explicit', [self._frame(func, st, text)], func.qname, text)
+            out.setdefault(it0.ident(), it0)
         elif isinstance(exc, ast.Call):
             # raise self.chipset_error(x): the call itself raises
             self._merge(out, self._expr(exc, env))
             if not out:
                 k = 'UNKNOWN:' + norm(cls_expr)
-                out[k] = Item(k, 'unknown', [self._frame(func, st, text)], func.qname, text)
+                it0 = Item(k, 'unknown', [self._frame(func, st, text)], func.qname, text)
+                out[it0.ident()] = it0
         else:
             # raise <local variable>: a stored exception object
             k = 'UNKNOWN:' + norm(cls_expr)
             stored = self._stored_exception(cls_expr, env)
             if stored:
                 for kk in stored:
-                    out.setdefault(kk, Item(kk, 'explicit', [self._frame(func, st, text)], func.qname, text))
+                    it0 = Item(kk, 'explicit', [self._frame(func, st, text)], func.qname, text)
+                    out.setdefault(it0.ident(), it0)
             else:
-                out[k] = Item(k, 'unknown', [self._frame(func, st, text)], func.qname, text)
+                it0 = Item(k, 'unknown', [self._frame(func, st, text)], func.qname, text)
+                out[it0.ident()] = it0
         return out
 
     def _stored_exception(self, expr, env):
@@ -286,7 +309,8 @@ class Escape(object):
         out = {}
         if caught is None:
             k = 'UNKNOWN:reraise'
-            out[k] = Item(k, 'unknown', [self._frame(func, st)], func.qname, head(st))
+            it0 = Item(k, 'unknown', [self._frame(func, st)], func.qname, head(st))
+            out[it0.ident()] = it0
             return out
         for e, it in caught.items():
             out.setdefault(e, it)
@@ -376,7 +400,8 @@ class Escape(object):
         if q in self.boundaries:
             out = {}
             for k in self.boundaries[q]:
-                out[k] = Item(k, 'boundary', ['<interface %s may raise %s>' % (q, k)], q, 'interface summary')
+                it0 = Item(k, 'boundary', ['<interface %s may raise %s>' % (q, k)], q, 'interface summary')
+                out[it0.ident()] = it0
             return out
         return self._esc(t.func, t.ctx, env['depth'] + 1)
 
@@ -391,7 +416,8 @@ class Escape(object):
             if isinstance(call.func, ast.Attribute) and call.func.attr in self.method_catalog:
                 for k in self.method_catalog[call.func.attr]:
                     text = norm(call)
-                    out.setdefault(k, Item(k, 'catalog', [self._frame(func, call, text)], func.qname, text))
+                    it0 = Item(k, 'catalog', [self._frame(func, call, text)], func.qname, text)
+                    out.setdefault(it0.ident(), it0)
             self._note_unresolved(func, call)
             return out
         for t in targets:
@@ -401,7 +427,8 @@ class Escape(object):
                 if ks:
                     text = norm(call)
                     for k in ks:
-                        out.setdefault(k, Item(k, 'catalog', [self._frame(func, call, text)], func.qname, text))
+                        it0 = Item(k, 'catalog', [self._frame(func, call, text)], func.qname, text)
+                        out.setdefault(it0.ident(), it0)
                 continue
             sub = self._target_esc(t, env)
             if sub:
@@ -422,3 +449,8 @@ def fmt_chain(item, limit=8):
     if len(ch) > limit:
         ch = ch[:limit // 2] + ['...'] + ch[-(limit // 2):]
     return ch
+
+
+def items_sorted(res):
+    """Items of an escape result ordered by (class, raise site)."""
+    return sorted(res.values(), key=lambda it: it.ident())
